@@ -68,7 +68,7 @@ Proof.
 Qed.
 (* the same configuration through the current transcription *)
 Lemma ukfc_quaternion_measurement_now_safe :
-  run (case_ukfc false (Lay 3 0 false 0) 1 2 true (Lay 0 1 true 0) 3 (Lay 3 0 false 0) 1 false) = Safe.
+  run (case_ukfc false (Lay 3 0 false 0) 1 2 true (Lay 0 1 true 0) 3 (Lay 3 0 false 0) 1 false false) = Safe.
 Proof. vm_compute. reflexivity. Qed.
 
 (* ---- before d09c5ac: ResamplingWithPrior built its three temporaries without use_quaternion *)
